@@ -5,6 +5,7 @@ import Starcal.Greg
     (tied to the code by the correspondence check only):
     * `lib.NewDate` (a constructor);
     * `utils.BisectLeft` (a closure handed to `sort.Search`: the model of Bisect.lean);
+    * `sort.Sort` by a translated `Less` (`sortWith`);
     * the gregorian calendar, which in this library *is* Go's `time` package (the model of Greg.lean). -/
 namespace Starcal.SrcExt
 open Starcal
@@ -24,5 +25,19 @@ def gregorian_IsLeap (y : Int) : Option Bool := some (gIsLeap y)
 def gregorian_ToJd (d : GoSem.Date) : Option Int := some (gToJd ⟨d.Year, d.Month, d.Day⟩)
 /-- gregorian.JdTo -/
 def gregorian_JdTo (jd : Int) : Option GoSem.Date := let d := gJdTo jd; some ⟨d.year, d.month, d.day⟩
+
+/-- `sort.Sort` of a slice by the package's own `Less(i, j)`, which the translator renders as a function of the slice
+    and two indices: insertion sort, comparing two elements by `less [a, b] 0 1`. ASSUMED: `Less` looks at nothing
+    but the two elements, and `sort.Sort` returns a sorted permutation; when `Less` is a total order without ties
+    (for `IntervalPointList.Less`: SrcTie/Interval.lean and Ival.lean) that list is unique, so any correct sort
+    returns it. A `Less` that panics makes the sort panic. -/
+def insertWith {α : Type} (less : List α → Int → Int → Option Bool) (x : α) : List α → Option (List α)
+  | [] => some [x]
+  | q :: qs => do
+    if !(← less [q, x] 0 1) then pure (x :: q :: qs) else pure (q :: (← insertWith less x qs))
+
+def sortWith {α : Type} (less : List α → Int → Int → Option Bool) : List α → Option (List α)
+  | [] => some []
+  | p :: ps => do insertWith less p (← sortWith less ps)
 
 end Starcal.SrcExt
